@@ -112,6 +112,25 @@ class C10History:
                 self.nontrivial = True
             elif fault and fault['kind'] in ('kill', 'oserror'):
                 sim.count('fault_not_fired')
+            if self.fired and self.fired['kind'] == 'oserror' and r.ok:
+                # the failed run itself reported success: then its outputs
+                # must be what an uninterrupted run writes
+                ok, ref = self.reference()
+                mine = declared_outputs(sim)
+                diff = sim.diff_files(mine, ref) if ok else ['(fresh fails)']
+                if diff:
+                    self.violations.append(Violation(
+                        PROP, 'success-implies-fresh',
+                        'the run that hit {} at {} exited 0 but {} differ '
+                        'from an uninterrupted run'.format(
+                            self.fired.get('errno'),
+                            site_of(self.fired['event']), diff),
+                        self.feats({'victim-reports-success',
+                                    'victim=' + how} |
+                                   {'stale:' + os.path.basename(d)
+                                    for d in diff}), idx))
+                else:
+                    sim.count('victim.error_absorbed')
             if fault and fault['kind'] == 'script':
                 self.nontrivial = True
                 sim.count('fired.script:' + fault.get('what', ''))
